@@ -258,6 +258,48 @@ func c22Send(n *node.Node, nw *simnet.Network, seq int, name string, payload []b
 	return nil, "timeout"
 }
 
+// c22Local asks the node itself through the public KeyManager API. The node
+// is the only member, so the operation returns as soon as its own reply has
+// come back over the loopback. The result is folded into the shape of a
+// single node's reply: accepted iff the operation reports no failure.
+func c22Local(n *node.Node, op int, key []byte) (*serf.VerifNodeKeyResponse, string) {
+	type res struct {
+		r   *serf.KeyResponse
+		err error
+	}
+	done := make(chan res, 1)
+	k64 := base64.StdEncoding.EncodeToString(key)
+	go func() {
+		km := n.Serf.KeyManager()
+		var r *serf.KeyResponse
+		var err error
+		switch op {
+		case 0:
+			r, err = km.InstallKey(k64)
+		case 1:
+			r, err = km.UseKey(k64)
+		default:
+			r, err = km.RemoveKey(k64)
+		}
+		done <- res{r, err}
+	}()
+	select {
+	case out := <-done:
+		if out.r == nil {
+			return nil, fmt.Sprintf("KeyManager returned no response (err=%v)", out.err)
+		}
+		if out.r.NumResp == 0 {
+			return nil, "timeout"
+		}
+		if out.r.NumNodes != 1 || out.r.NumResp != 1 || out.r.NumErr > 1 || (out.r.NumErr != 0) != (out.err != nil) {
+			return nil, fmt.Sprintf("KeyManager on a one-node cluster: NumNodes=%d NumResp=%d NumErr=%d err=%v", out.r.NumNodes, out.r.NumResp, out.r.NumErr, out.err)
+		}
+		return &serf.VerifNodeKeyResponse{Result: out.err == nil, Message: out.r.Messages[n.Name]}, ""
+	case <-time.After(10 * time.Second):
+		return nil, "timeout"
+	}
+}
+
 func bodyC22(c c22Case, x *vkit.Ctx) {
 	if len(c.Init) == 0 {
 		x.Inconclusive("malformed case")
@@ -291,12 +333,18 @@ func bodyC22(c c22Case, x *vkit.Ctx) {
 		return
 	}
 	nw := simnet.New(1)
+	nw.Loopback = true // the node's replies to its own queries (Via=1) reach it
 	n, err := node.New(nw, node.Opts{Name: "kn", Quiet: true, Mutate: func(conf *serf.Config) {
 		kr, _ := memberlist.NewKeyring(loaded, loaded[0])
 		conf.MemberlistConfig.Keyring = kr
 		conf.MemberlistConfig.GossipVerifyIncoming = false
 		conf.MemberlistConfig.GossipVerifyOutgoing = false
 		conf.KeyringFile = path
+		// a key operation issued at this node lasts GossipInterval*QueryTimeoutMult
+		// at most (it returns earlier, once the only member has replied); there is
+		// nobody to gossip to, so the interval changes nothing else
+		conf.MemberlistConfig.GossipInterval = 8 * time.Second
+		conf.QueryTimeoutMult = 1
 	}})
 	if err != nil {
 		x.Inconclusive("create: " + err.Error())
@@ -322,12 +370,29 @@ func bodyC22(c c22Case, x *vkit.Ctx) {
 		} else {
 			malformed++
 		}
-		reply, why := c22Send(n, nw, i+1, name, payload)
+		mon := vkit.StartMonitor()
+		var reply *serf.VerifNodeKeyResponse
+		var why string
+		if op.Via == 1 && op.Body == 0 {
+			reply, why = c22Local(n, op.Op%3, req.Key)
+			x.Label("via:local-keymanager")
+		} else {
+			reply, why = c22Send(n, nw, 2*i+1, name, payload)
+			x.Label("via:gossip-from-peer")
+		}
+		gap := mon.MaxGap()
+		mon.Stop()
 		if reply == nil {
-			if why == "timeout" {
-				x.Inconclusive("no reply within 10s")
-			} else {
-				x.Violationf("bad-reply", "op %d (%s key#%d body%d): %s", i, name, op.Key, op.Body, why)
+			switch {
+			case why != "timeout":
+				x.Violationf("bad-reply", "op %d (%s key#%d body%d via%d): %s", i, name, op.Key, op.Body, op.Via, why)
+			case gap > 500*time.Millisecond || !waitSerfWork(time.Second):
+				x.Inconclusive("no reply within 10s (starved)")
+			default:
+				// every key handler documents that it replies, with the error if the
+				// request failed; ten undisturbed seconds without a handler running
+				// and without a reply is a request neither granted nor rejected
+				x.Violationf("no-reply:"+name, "op %d (%s key#%d len %d body%d via%d): the node never replied (ring before: %v)", i, name, op.Key, len(req.Key), op.Body, op.Via, c22Set(before))
 			}
 			return
 		}
